@@ -7,7 +7,8 @@ from vf.core import cZ, cbool, clist, copt, cpair
 PID = "C09"
 MODULES = ["Prelude", "C09_Model", "C09_Spec", "C09_Check"]
 PROPS_MODULE = "C09_Properties"
-THEOREMS = ["C09_size_le_global", "C09_tokenbucket_le_global", "C09_schema_update_bounds", "C09_fallback", "C09_fallback_heartbeat",
+THEOREMS = ["C09_size_le_global", "C09_tokenbucket_le_global", "C09_schema_update_bounds", "C09_fallback",
+            "C09_default_iff_deleted", "C09_fallback_heartbeat", "C09_hysteresis", "C09_ready_again",
             "C09_failing_bounds", "C09_recovery_allocate", "C09_recovery_count", "C09_history"]
 # VERIF_C09_MODEL=unrepaired / noreclamp compares the same cases with the model of the tree before
 # C09_clamp.diff / before C09_reclamp_on_schema_update.diff (correspondence only)
@@ -15,25 +16,27 @@ ALT_MODEL = os.environ.get("VERIF_C09_MODEL", "")
 UNREPAIRED = ALT_MODEL in ("unrepaired", "noreclamp", "notypestop")
 EVAL = {"unrepaired": "C09_Check.eval_unrepaired", "noreclamp": "C09_Check.eval_noreclamp",
         "notypestop": "C09_Check.eval_notypestop"}.get(ALT_MODEL, "C09_Check.eval")
-COQ_SHARD = 24
+COQ_SHARD = 50
 CLAUSES = ["agree"] if UNREPAIRED else ["agree", "bound", "fallback", "inforce", "failing", "recovery", "nopanic"]
 RULE = ("distinct (schema, mode, clientset, event list) histories in which the remote limiter was selected at least "
         "once AND at least one server answer was out of range (negative, above the configured global value, of "
         "another type, an error, a rejected or a stale reply), or readiness was lost, or the schema's limits were "
-        "changed while a server quota was in force")
+        "changed while a server quota was in force, or its type changed, or it was deleted")
 TRUSTED_BASE = [
     "Coq 8.16.1 kernel + vm_compute (case files); no native_compute, no extraction",
-    "hand-written model C09_Model.v (parameters fx=fy=true: tree with build/fixes/C09_clamp.diff and "
-    "C09_reclamp_on_schema_update.diff) tied to the code by the "
+    "hand-written model C09_Model.v (parameters fx=fy=fz=true: tree with build/fixes/C09_clamp.diff, "
+    "C09_reclamp_on_schema_update.diff and 06780c0) tied to the code by the "
     "differential run of this check (Go harness harness/c09, overlay exports)",
     "modelled not verified: sync.Map/atomics, the meter (its readings are inputs of the error reply), golib max-inflight "
     "bucket and client-go token bucket (only their size / qps,burst), the goroutines of the reconcile loop, of the "
-    "global counter and of the heartbeat (their steps are driven one at a time by the harness), real time (virtual seconds)",
+    "global counter and of the heartbeat (their steps are driven one at a time by the harness), real time (virtual milliseconds: lastChange is "
+    "re-based on the virtual clock right before every setLeaderStatus call), a leader change is the "
+    "setLeaderStatus(shard, leader, true) of clientSets.sync (the endpoint is not stored, no client is created)",
 ]
 ASSUMPTIONS = [
     "the schema is valid (ValidateFlowControlConfiguration): 0 <= local <= global < 2^31, token bucket local qps >= 1, "
-    "and carries its global section; along a history it changes in its strategy and in its limits (to valid limits), "
-    "never in its type",
+    "and carries its global section; along a history it may change in strategy, type and limits (to valid limits) "
+    "and be deleted and added again; replies still in flight for a wrapper that was dropped are not modelled",
     "server answers reach the gateway only through reconcile.updateFlowControls / updateGlobalCuntFlowControls "
     "(remoteWrapper.Sync) and globalCounter.send (SetLimit); an answer carries at most one of maxRequestsInflight / tokenBucket",
     "burst-reserve percentages are the defaults (GLOBAL_MAXINFLIGHT_BURST_PERCENT unset)",
@@ -530,7 +533,8 @@ def nontrivial_key(case, obs):
     remote = any(s.get("sel") == "remote" for s in steps)
     bad = any(out_of_range(case, o) for o in case["ops"])
     lost = any(a.get("ready") and not b.get("ready") for a, b in zip(steps, steps[1:]))
-    upd = any(o["op"] == "schema" and a.get("rem") for o, a in zip(case["ops"], steps))
+    upd = any((o["op"] == "schema" and a.get("rem")) or o["op"] == "delete" or (o["op"] == "schema" and o["nk"] != case["kind"])
+              for o, a in zip(case["ops"], steps))
     if remote and (bad or lost or upd):
         return repr((case["kind"], case["l1"], case["l2"], case["g1"], case["g2"], case["mode"], case["cs"], case["strat"],
                      case["ops"]))
@@ -548,7 +552,9 @@ def stats(case, obs):
         elif o["op"] == "count":
             lab += ":" + o["r"] + ("" if o["r"] != "ok" else (":accept" if o["accept"] else ":reject"))
         elif o["op"] == "schema":
-            lab += ":global-" + ("lowered" if o["ng1"] < case["g1"] else "raised-or-same")
+            lab += ":" + o["nk"]
+        elif o["op"] == "elapse":
+            lab += ":" + ("<5s" if o["ms"] < 5000 else (">5s" if o["ms"] > 5000 else "=5s"))
         labs.append("ev:%s" % lab)
         labs.append("sel:%s" % s.get("sel"))
     return labs
@@ -575,10 +581,11 @@ def known_match(entry, case, obs, failed):
 LEVEL_TEXT = ("full proof: Coq theorems over every valid schema (max-in-flight and token-bucket), every limiter mode and "
               "client-set state and every sequence of server answers (arbitrary integers, other types, accept/reject, "
               "errors with arbitrary meter readings, stale and reordered replies, repeated answers), heartbeats, elapsed "
-              "time, strategy changes and schema updates to arbitrary valid limits (the bound is always the limit "
-              "currently configured, without a grace period) — induction over the event list with a state invariant — about a Gallina model of Load, "
+              "time in ms around the 5 s hysteresis, leader changes, answers with both members, schema updates to another "
+              "strategy, another type and arbitrary valid limits, deletion and re-creation of the name (the bound is "
+              "always the schema currently configured, without a grace period) — induction over the event list with a state invariant — about a Gallina model of Load, "
               "remoteWrapper.Sync, the global-count wrappers and the readiness hysteresis; the model (of the tree with "
-              "build/fixes/C09_clamp.diff and C09_reclamp_on_schema_update.diff) is compared with the real upstreamLimiter on generated histories on every run "
+              "build/fixes/C09_clamp.diff, C09_reclamp_on_schema_update.diff and 06780c0) is compared with the real upstreamLimiter on generated histories on every run "
               "and the executable spec is evaluated on the real observations; C09_Unrepaired.v keeps the refutations for "
               "the unrepaired tree")
 LEVEL_NOTE = ("trusted: Coq kernel + vm_compute, the hand-written model (tied by differential run only), Go harness and "
